@@ -1,5 +1,6 @@
 import FstVerif.Proofs.Open
 import FstVerif.Proofs.OldVer
+import FstVerif.Spec.Format
 /-
 C10 — version / length gate of `Fst::new` and `verify` on old versions.
 Statements only; proofs in Proofs/Open.lean. (The read-side theorems for
@@ -33,6 +34,13 @@ theorem C10_checksum_missing (bs : List UInt8) (m : Meta)
 theorem C10_v3_has_checksum (bs : List UInt8) (m : Meta)
     (hm : fstNew (Src.ofList bs) = .ok m) (hv : m.version = 3) :
     fstVerify m (Src.ofList bs) ≠ .err .checksumMissing := OpenProofs.checksum_present_v3 bs m hm hv
+
+/-- previously written files can only be read if the common-input table the reader uses is the
+one they were written with: the table compiled into the crate (regenerated on every run) is
+the pinned one -/
+theorem C10_pinned_common_inputs : Gen.COMMON_INPUTS_INV = Spec.commonInv ∧ Gen.VERSION = 3 ∧
+    Gen.TRANS_INDEX_THRESHOLD = 32 := by
+  refine ⟨by decide +kernel, by decide, by decide⟩
 
 /-- READ SIDE, versions 1, 2 and 3. `Spec.encodeFst` (Spec/Encode.lean) is the reference
 encoder — version 1 without transition index, version 2 with index and without checksum,
